@@ -1,4 +1,5 @@
 import Restic.Proofs.C56_Inv
+import Restic.Gen.Source
 /-!
 # C56 — The index hash table behaves as a multimap
 
@@ -18,6 +19,16 @@ open Restic.Model.IndexMap Restic.Proofs.C56
 
 theorem bloomShift_lt_wordBits : bloomShift < wordBits := by decide
 theorem maxLoad_pos : 0 < maxLoad := by decide
+
+/-- T1 (regenerated from indexmap.go): `add` grows the table *before* it hashes the id (the bucket
+    is computed for the new table size), then allocates the entry and builds the pointer word with
+    `bloomInsertID`; `preallocate` rehashes with `bloomInsertID` and grows the block list last -/
+theorem add_call_order :
+    Restic.Gen.indexMap_add_calls.idxOf "m.preallocate" < Restic.Gen.indexMap_add_calls.idxOf "m.hash"
+    ∧ Restic.Gen.indexMap_add_calls.idxOf "m.hash" < Restic.Gen.indexMap_add_calls.idxOf "m.newEntry"
+    ∧ "bloomInsertID" ∈ Restic.Gen.indexMap_add_calls
+    ∧ "bloomInsertID" ∈ Restic.Gen.indexMap_preallocate_calls
+    ∧ Restic.Gen.indexMap_preallocate_calls.getLast? = some "m.blockList.preallocate" := by decide
 
 section
 variable (hash : ID → Nat)
